@@ -487,6 +487,39 @@ def gate_cases(rng, n):
     return out
 
 
+def busy_system_cases(rng, n):
+    """the system thread is kept busy (d:90 ... d:91: it drains nothing) while arbiters are created, stopped early and the system is
+    stopped: registrations, deregistrations and the exit command pile up in the system's command queue and must all be honoured"""
+    out = []
+    for r in range(n):
+        ops = []
+        if rng.random() < 0.4:
+            ops.append("n:f")
+        ops.append("d:90")
+        k0 = len([o for o in ops if o.startswith("n:")])
+        na = rng.randint(2, 5)
+        for _ in range(na):
+            ops.append("n:f")
+        tot = k0 + na
+        early = [k for k in range(tot) if rng.random() < 0.3]
+        for k in early:
+            ops.append("st:%d:%s" % (k, rng.choice("oh")))
+        for k in range(tot):
+            if rng.random() < 0.5:
+                ops.append("sf:%d:c:%s" % (k, rng.choice("oh")))
+        code = rng.choice(CODES)
+        ops.append("ss:%d:%s" % (code, rng.choice("ft")))
+        if rng.random() < 0.4:
+            ops.append("ss:%d:f" % rng.choice([c for c in CODES if c != code]))
+        ops.append("d:91")
+        ops.append("wr")
+        for k in range(tot):
+            ops.append("j:%d" % k)
+        seed = rng.randrange(1, 10 ** 6) * 4 + r % 4
+        out.append("%s %d %s" % ("R" if r % 3 == 0 else "W", seed, " ".join(ops)))
+    return out
+
+
 def small(script):
     toks = script.split()
     return len(toks) <= 9 and sum(1 for t in toks if op_class(t) == "n") <= 2
@@ -508,6 +541,8 @@ def check(ctx, pid):
     cases = list(corpus) + battery_cases(ctx.rng, flavour, 40 if quick else 400)
     if flavour == "c10":
         cases += gate_cases(ctx.rng, 150 if quick else 3000)
+    if flavour == "c09":
+        cases += busy_system_cases(ctx.rng, 120 if quick else 2500)
     for i, s in enumerate(scripts):
         base = ctx.rng.randrange(1, 10 ** 6) * 4
         userun = (i % 4 == 0)
